@@ -57,6 +57,7 @@ def listener_id_roots(e, depth=0, seen=None):
             return listener_id_roots(e[2][0], depth + 1, seen)
         return ["other:" + nm]
     if k == "cycle": return []
+    if k in ("ref", "mem") and len(e) > 1 and isinstance(e[1], tuple) and e[1] and e[1][-1] == "used_streams": return ["live"]      # the manager's own field (inside the manager / an inlined helper of it)
     return ["other:" + str(k)]
 
 
